@@ -276,7 +276,9 @@ def run_canary(con, label, old, new, timeout_ms=10000, where=None):
     finally:
         extract._FILES[path] = saved
     # newly failing only: discharged on the unpatched source, or an obligation that the unpatched source does not even generate
-    failed = sorted(k for k in r.failed() if k in base or k not in base_all or k.split(":")[-1].startswith("ensures.result.has.the.contracted.shape"))
+    KEY = core.Ctx.oid_key
+    kb, ka = {KEY(k) for k in base}, {KEY(k) for k in base_all}
+    failed = sorted(k for k in r.failed() if KEY(k) in kb or KEY(k) not in ka or k.split(":")[-1].startswith("ensures.result.has.the.contracted.shape"))
     unk = sorted(r.unknown())
     status = "killed" if failed else ("undecided" if (unk or r.undecided) else "survived")
     return {"label": label, "status": status, "failed": failed[:4], "unknown": unk[:4], "undecided": r.undecided[:2]}
